@@ -22,6 +22,12 @@ type Mutant struct {
 	Diff      string `json:"diff"` // alternatively a patch file under mustfail/
 	Note      string `json:"note"`
 	SkipBuild bool   `json:"skip_build"`
+	Expect    string `json:"expect"` // "" = the check must report a violation; "pass" = a harmless edit: the check must stay quiet
+	Edits     []struct {
+		File string `json:"file"`
+		Old  string `json:"old"`
+		New  string `json:"new"`
+	} `json:"edits"` // further replacements applied with File/Old/New
 }
 
 func copyTree(src, dst string) error {
@@ -35,9 +41,10 @@ func cmdSelftest(args []string) {
 	repo := fs.String("repo", envOr("GFV_REPO", "/repo"), "repository")
 	vdir := fs.String("verif", envOr("GFV_VERIF", "/verif"), "verif dir")
 	only := fs.String("only", "", "substring filter on mutant name or property")
+	corpus := fs.String("corpus", "mutants.json", "file under mustfail/: mutants.json (must fail) or harmless.json (must pass)")
 	fs.Parse(args)
 	var muts []Mutant
-	if err := readJSON(filepath.Join(*vdir, "mustfail", "mutants.json"), &muts); err != nil {
+	if err := readJSON(filepath.Join(*vdir, "mustfail", *corpus), &muts); err != nil {
 		fmt.Fprintln(os.Stderr, err)
 		os.Exit(2)
 	}
@@ -78,6 +85,15 @@ func cmdSelftest(args []string) {
 			} else {
 				os.WriteFile(p, []byte(strings.Replace(string(b), m.Old, m.New, 1)), 0o644)
 			}
+			for _, e := range m.Edits {
+				p := filepath.Join(dst, e.File)
+				b, err := os.ReadFile(p)
+				if err != nil || !strings.Contains(string(b), e.Old) {
+					result = "PATTERN-NOT-FOUND"
+				} else {
+					os.WriteFile(p, []byte(strings.Replace(string(b), e.Old, e.New, -1)), 0o644)
+				}
+			}
 		}
 		if result == "" && !m.SkipBuild {
 			cmd := exec.Command("go", "build", "./...")
@@ -107,6 +123,11 @@ func cmdSelftest(args []string) {
 					}
 				}
 				switch {
+				case m.Expect == "pass" && code == 0 && viol == 0:
+					result += fmt.Sprintf("quiet in %s (%.0fs) ", prop, time.Since(start).Seconds())
+				case m.Expect == "pass":
+					result += fmt.Sprintf("FALSE-ALARM in %s (exit %d, %d violations): %s ", prop, code, viol, firstLines(string(out), 2))
+					missed++
 				case code == 1 && viol > 0:
 					result += fmt.Sprintf("caught by %s (%d violations, %d with failing input, %.0fs) ", prop, viol, withInput, time.Since(start).Seconds())
 				case code == 0:
@@ -124,7 +145,7 @@ func cmdSelftest(args []string) {
 		rows = append(rows, row{m.Name, m.Property, result})
 	}
 	b, _ := json.MarshalIndent(rows, "", " ")
-	os.WriteFile(filepath.Join(*vdir, "mustfail", "last_selftest.json"), b, 0o644)
+	os.WriteFile(filepath.Join(*vdir, "mustfail", "last_selftest_"+strings.TrimSuffix(*corpus, ".json")+".json"), b, 0o644)
 	if missed > 0 {
 		fmt.Printf("%d mutants not caught\n", missed)
 		os.Exit(1)
